@@ -46,7 +46,7 @@ def toy_raw(toy):
     x = np.arange(n + 1) / float(n)
     inv = np.ones(n + 1); inv[1:] = 1.0 / np.arange(1, n + 1)
     nan_above = toy.get('nan_above')
-    def f(params):
+    def f(params, pts=None, shift=0.0, tilt=0.0):
         # finite everywhere: an unbounded optimiser may step to exp(800) = inf; the toy then answers like a very bad finite point
         # (a NaN/inf spectrum would make ll `masked`, see the note on the NaN guard in notes/C12.md).  NaN parameters stay NaN.
         p = np.clip(np.asarray(params, dtype=float).ravel(), -1e12, 1e12)
@@ -72,24 +72,35 @@ def toy_raw(toy):
             else:
                 raise ValueError(kind)
             a = a * theta
+            # the grid the caller asks for (pts), an extra positional argument (func_args) and an extra keyword (func_kwargs) all change the
+            # SHAPE of the spectrum, so a stale value of any of them changes the likelihood also when multinom=True
+            xx = x if a.ndim == 1 else np.add.outer(x, x) / 2.0
+            if pts is not None:
+                a = a * (1.0 + 6.0 * xx / float(np.min(pts)))
+            a = a * (1.0 + float(shift) * xx ** 2) * np.exp(-float(tilt) * xx)
         if nan_above is not None and p[0] > nan_above:
             a = a * np.nan
         return a
     return f
 
 class Problem:
-    def __init__(self, dadi, toy):
+    def __init__(self, dadi, toy, pts=None, func_args=None, func_kwargs=None):
         self.dadi = dadi; self.toy = toy
-        self.raw = toy_raw(toy)
+        self.raw0 = toy_raw(toy)
+        self.pts = pts; self.func_args = list(func_args or []); self.func_kwargs = dict(func_kwargs or {})
+        self.raw = lambda params: self.raw0(params, self.pts, *self.func_args, **self.func_kwargs)     # what the CALLER asked for
+        self.inputs = []                      # (pts, args, kwargs) the model function really received, per call
         base = self.raw(toy['true'])
         nz = np.random.default_rng(int(toy.get('noise_seed', 0))).uniform(-1, 1, base.shape) * float(toy.get('noise', 0.0))
         self.data = dadi.Spectrum(base * (1.0 + nz) * float(toy.get('depth', 1.0)))
         self.calls = []
-    def model_func(self, params, ns, pts):
+    def model_func(self, params, ns, *args, **kwargs):
         if len(self.calls) >= EVAL_BUDGET:
             raise EvalBudget('%d model evaluations' % len(self.calls))
         self.calls.append(np.array(params, dtype=float).ravel().copy())
-        return self.dadi.Spectrum(self.raw(params))
+        kw = dict(kwargs); pts = kw.pop('pts', 'absent')
+        self.inputs.append((pts, list(args), kw))
+        return self.dadi.Spectrum(self.raw0(params, None if isinstance(pts, str) else pts, *args, **kw))
     def ll(self, full, multinom):
         """log-likelihood of a full natural parameter vector, straight from the toy model (no recording)"""
         I = self.dadi.Inference
@@ -210,30 +221,58 @@ def table_name(spec):
 def is_log(spec):
     return ('_log' in spec['wrapper']) or (spec['wrapper'] == 'opt' and spec.get('log_opt'))
 
-def call_wrapper(dadi, pb, spec):
+def caller_objects(spec):
+    """the mutable objects the caller owns and passes in (func_args / func_kwargs only when the spec has them: otherwise the wrapper's
+    own default objects are used, which is the common way of calling)"""
+    o = dict(p0=None if spec.get('p0') is None else list(spec['p0']),
+             lower_bound=None if spec.get('lower') is None else list(spec['lower']),
+             upper_bound=None if spec.get('upper') is None else list(spec['upper']),
+             fixed_params=fx_real(spec['fixed']))
+    if spec.get('func_args') is not None: o['func_args'] = list(spec['func_args'])
+    if spec.get('func_kwargs') is not None: o['func_kwargs'] = dict(spec['func_kwargs'])
+    return o
+
+def frozen(o):
+    """a comparable snapshot of a caller-owned object (types included: 0 vs 0.0 vs False vs numpy zeros)"""
+    if isinstance(o, dict): return ('dict', tuple((k, frozen(v)) for k, v in sorted(o.items())))
+    if isinstance(o, (list, tuple)): return (type(o).__name__, tuple(frozen(v) for v in o))
+    if isinstance(o, np.ndarray): return ('ndarray', o.shape, tuple(o.ravel().tolist()))
+    return (type(o).__name__, repr(o))
+
+def default_objects(f):
+    """name -> default value of every parameter of f whose default is a mutable container"""
+    out = {}
+    for name, prm in inspect.signature(f).parameters.items():
+        if isinstance(prm.default, (list, dict, set, np.ndarray)):
+            out[name] = prm.default
+    return out
+
+def call_wrapper(dadi, pb, spec, owned=None):
     """the call a user would make; returns whatever the wrapper returns"""
     I = dadi.Inference
     w = spec['wrapper']
     f = getattr(I, w)
     params = inspect.signature(f).parameters
-    lower = None if spec['lower'] is None else list(spec['lower'])
-    upper = None if spec['upper'] is None else list(spec['upper'])
-    fixed = fx_real(spec['fixed'])
+    owned = owned if owned is not None else caller_objects(spec)
+    lower, upper, fixed = owned['lower_bound'], owned['upper_bound'], owned['fixed_params']
+    pts = spec.get('pts')
     kw = dict(multinom=bool(spec['multinom']), fixed_params=fixed)
+    if 'func_args' in owned: kw['func_args'] = owned['func_args']
+    if 'func_kwargs' in owned: kw['func_kwargs'] = owned['func_kwargs']
     if w == 'optimize_grid':
         grid = tuple(slice(a, b, complex(0, m)) for (a, b, m) in spec['grid'])
         kw['full_output'] = bool(spec['full_output'])
-        return f(pb.data, pb.model_func, None, grid, **kw)
+        return f(pb.data, pb.model_func, pts, grid, **kw)
     kw.update(lower_bound=lower, upper_bound=upper)
     if w == 'opt':
         import nlopt
         kw.update(log_opt=bool(spec.get('log_opt', False)), algorithm=getattr(nlopt, spec.get('algorithm') or 'LN_BOBYQA'))
         if spec.get('maxiter') is not None: kw['maxeval'] = int(spec['maxiter'])
-        return f(list(spec['p0']), pb.data, pb.model_func, None, **kw)
+        return f(owned['p0'], pb.data, pb.model_func, pts, **kw)
     kw['full_output'] = bool(spec['full_output'])
     if 'll_scale' in params and spec.get('ll_scale', 1) != 1: kw['ll_scale'] = spec['ll_scale']
     if spec.get('maxiter') is not None and 'maxiter' in params: kw['maxiter'] = int(spec['maxiter'])
-    return f(list(spec['p0']), pb.data, pb.model_func, None, **kw)
+    return f(owned['p0'], pb.data, pb.model_func, pts, **kw)
 
 # A parameter fixed at exactly zero, in every spelling a caller may use (a spec stores the tag, so that it stays JSON)
 ZEROS = {'int0': lambda: 0, 'float0': lambda: 0.0, 'negzero': lambda: -0.0, 'false': lambda: False,
@@ -293,12 +332,13 @@ def fixed_ok(v, fixed):
     if fixed is None: return True
     return len(v) == len(fixed) and all(f is None or float(x) == float(f) for x, f in zip(v, fixed))
 
-def run_optim(chk, ctx, spec, sample=True):
+def run_optim(chk, ctx, spec, sample=True, report=None, keep_defaults=False):
     """run one wrapper call: L3 on what really happened, then K against the Lean replay of the trace"""
     dadi = ctx['dadi']
     w = spec['wrapper']; tn = table_name(spec)
     keyw = 'opt:log_opt=%s' % bool(spec.get('log_opt')) if w == 'opt' else w
-    pb = Problem(dadi, spec['toy'])
+    pb = Problem(dadi, spec['toy'], spec.get('pts'), spec.get('func_args'), spec.get('func_kwargs'))
+    inp = report if report is not None else spec       # what a replay needs (a whole sequence of fits, when the case is one)
     k = len(spec['p0']) if spec.get('p0') is not None else len(spec['fixed'] or spec['grid'])
     nfix = 0 if spec['fixed'] is None else sum(f is not None for f in spec['fixed'])
     bkind = lambda b: 'none' if b is None else ('partial' if any(v is None for v in b) else ('neg' if any(v < 0 for v in b) else ('zero' if any(v == 0 for v in b) else 'pos')))
@@ -314,21 +354,45 @@ def run_optim(chk, ctx, spec, sample=True):
     compat = bool(spec.get('compat'))
     rec = []
     exc = None
+    owned = caller_objects(spec)
+    before = {n: frozen(o) for n, o in owned.items()}
+    fobjs = watched_functions(dadi, w)
     with recording(dadi, rec, compat=compat):
         try:
             with np.errstate(all='ignore'):
-                ret = call_wrapper(dadi, pb, spec)
+                ret = call_wrapper(dadi, pb, spec, owned)
         except Exception as e:
             exc = e
     calls = [c.tolist() for c in pb.calls]
+    # ---- no state may leak out of a call: the caller's objects are untouched, the functions' default containers still hold their
+    #      initial value (they are shared by every later call in the process)
+    for n, o in owned.items():
+        if frozen(o) != before[n]:
+            chk.fail('%s:mutates_argument:%s' % (keyw, n), '%s(%s) changed the caller\'s %s from %r to %r' % (w, describe(spec), n, before[n], frozen(o)), inp)
+    initial = ctx.setdefault('_defaults0', {})
+    for fname, fobj in fobjs.items():
+        for n, o in default_objects(fobj).items():
+            key0 = (fname, n)
+            if key0 not in initial: initial[key0] = (frozen(INITIAL_DEFAULTS.get(key0, o)), INITIAL_DEFAULTS.get(key0))
+            if frozen(o) != initial[key0][0]:
+                chk.fail('%s:default_argument_mutated:%s.%s' % (keyw, fname, n),
+                         'after %s(%s) the default value of `%s` of %s is %r (a shared object: every later call in the process sees it)'
+                         % (w, describe(spec), n, fname, o), inp)
+                if not keep_defaults: restore_default(o, initial[key0][1])
+    # ---- the model function must be called with THIS call's grid / extra arguments
+    want_in = (spec.get('pts'), list(spec.get('func_args') or []), dict(spec.get('func_kwargs') or {}))
+    wrong = [i for i in pb.inputs if not (same_pts(i[0], want_in[0]) and i[1] == want_in[1] and i[2] == want_in[2])]
+    if wrong:
+        chk.fail('%s:model_inputs' % keyw, '%s(%s): %d of %d model evaluations did not get this call\'s pts/func_args/func_kwargs %r, first got %r'
+                 % (w, describe(spec), len(wrong), len(pb.inputs), want_in, wrong[0]), inp)
     if exc is not None and (isinstance(exc, EvalBudget) or len(pb.calls) >= EVAL_BUDGET):   # nlopt re-raises it as SystemError
         chk.fail('%s:no_termination' % keyw, '%s(%s) was still evaluating the model after %d evaluations (tolerances and iteration limits at their '
-                 'documented defaults unless given)' % (w, describe(spec), EVAL_BUDGET), spec)
+                 'documented defaults unless given)' % (w, describe(spec), EVAL_BUDGET), inp)
         chk.stat('stopped_after_budget:' + tn)
         return dict(raised=exc, rec=rec)
     if exc is not None:
         chk.fail('%s:raises:%s:%s' % (keyw, type(exc).__name__, exc_slug(exc)),
-                 '%s(%s) raises %s: %s' % (w, describe(spec), type(exc).__name__, str(exc)[:200]), spec)
+                 '%s(%s) raises %s: %s' % (w, describe(spec), type(exc).__name__, str(exc)[:200]), inp)
         chk.stat('raised:' + tn)
         return dict(raised=exc, rec=rec)
     # ---------------------------------------------------------------- what came back
@@ -343,7 +407,7 @@ def run_optim(chk, ctx, spec, sample=True):
     verdict = []
     def bad(clause, what):
         verdict.append(clause)
-        chk.fail('%s:%s' % (keyw, clause), '%s(%s): %s' % (w, describe(spec), what), spec)
+        chk.fail('%s:%s' % (keyw, clause), '%s(%s): %s' % (w, describe(spec), what), inp)
     # (1) first evaluation is the user's start
     if w != 'optimize_grid':
         s0 = start_full(spec)
@@ -413,8 +477,34 @@ def answer_evaluated(rec, spec):
         return any(np.array_equal(q, x) for q in b['queries'])
     return any(np.array_equal(q, x) and abs(v - f) <= VTOL * max(abs(v), abs(f)) for q, v in zip(b['queries'], b['values']))
 
+INITIAL_DEFAULTS = {}       # (function, parameter) -> pristine copy of a mutable default, taken when the module is first seen
+
+def watched_functions(dadi, w):
+    I = dadi.Inference
+    fs = {'Inference.' + w: getattr(I, w), 'Inference._object_func': I._object_func}
+    if w == 'opt': fs['NLopt_mod.opt'] = dadi.NLopt_mod.opt
+    import copy
+    for fname, f in fs.items():
+        for n, o in default_objects(f).items():
+            INITIAL_DEFAULTS.setdefault((fname, n), copy.deepcopy(o) if len(o) == 0 else type(o)())   # documented defaults are all empty
+    return fs
+
+def restore_default(o, initial):
+    """put a polluted default container back (in place), so that the NEXT case starts from a clean process state and is replayable alone"""
+    try:
+        o.clear()
+        if isinstance(o, dict): o.update(initial or {})
+        elif isinstance(o, list): o.extend(initial or [])
+    except Exception:
+        pass
+
+def same_pts(a, b):
+    if isinstance(a, str) or isinstance(b, str): return a == b
+    if a is None or b is None: return a is b
+    return np.array_equal(np.asarray(a), np.asarray(b))
+
 def describe(spec):
-    d = {k: spec.get(k) for k in ('p0', 'lower', 'upper', 'fixed', 'multinom', 'll_scale', 'maxiter', 'log_opt', 'algorithm', 'full_output', 'grid')
+    d = {k: spec.get(k) for k in ('p0', 'pts', 'lower', 'upper', 'fixed', 'multinom', 'll_scale', 'maxiter', 'log_opt', 'algorithm', 'full_output', 'grid', 'func_args', 'func_kwargs')
          if spec.get(k) is not None}
     return ', '.join('%s=%r' % kv for kv in d.items())
 
@@ -567,6 +657,39 @@ def read_table(chk, ctx):
     return t
 
 # =============================================================================================== generators
+def gen_pts_seq(rng, m):
+    """m different values of `pts` (an int, a list of grid sizes as dadi's extrapolating models take, occasionally None)"""
+    out = []
+    while len(out) < m:
+        r = rng.random()
+        v = int(rng.integers(10, 120)) if r < 0.75 else ([int(x) for x in sorted(rng.integers(10, 120, size=3))] if r < 0.93 else None)
+        if not any(same_pts(v, o) for o in out): out.append(v)
+    return out
+
+def gen_extras(rng):
+    """extra positional / keyword arguments for the model function; absent = the wrapper's own (shared, mutable) default is used"""
+    d = {}
+    if rng.random() < 0.3: d['func_args'] = [float(rng.choice([0.0, 0.3, 1.0]))]
+    r = rng.random()
+    if r < 0.2: d['func_kwargs'] = {'tilt': float(rng.choice([0.2, 0.7]))}
+    elif r < 0.35: d['func_kwargs'] = {}
+    return d
+
+def gen_seq(rng, wrapper, tier, m=2, **force):
+    """consecutive fits through ONE wrapper in one process, every input different: pts, data/toy, p0, bounds, fixed_params, multinom, extras"""
+    pts = gen_pts_seq(rng, m)
+    if m >= 2 and pts[0] is None: pts[0], pts[1] = pts[1], pts[0]
+    fits = []
+    for j in range(m):
+        f = gen_grid_spec(rng, tier) if wrapper == 'optimize_grid' else gen_spec(rng, wrapper, tier, **force)
+        f['pts'] = pts[j]
+        if j > 0:
+            f['multinom'] = not fits[0]['multinom']
+            for key in ('func_args', 'func_kwargs'):      # the first fit may have extras, the later ones use the defaults, and vice versa
+                if key in fits[0] and rng.random() < 0.7: f.pop(key, None)
+        fits.append(f)
+    return dict(case='seq', wrapper=wrapper, fits=fits)
+
 def gen_toy(rng, k, positive):
     kind = 'bump' if (positive and rng.random() < 0.6) else ('exp2d' if (rng.random() < 0.2) else 'exp')
     n = int(rng.integers(6, 9)) if kind == 'exp2d' else int(rng.integers(8, 21))
@@ -644,6 +767,8 @@ def gen_spec(rng, wrapper, tier, **force):
     else:
         spec['maxiter'] = int(rng.integers(3, 12)) if quick else int(rng.integers(8, 40))
     if 'maxiter' in force: spec['maxiter'] = force['maxiter']
+    spec['pts'] = gen_pts_seq(rng, 1)[0]
+    spec.update(gen_extras(rng))
     return spec
 
 def gen_grid_spec(rng, tier, **force):
@@ -660,13 +785,19 @@ def gen_grid_spec(rng, tier, **force):
     if force.get('zero_at') is not None:
         fixed = [None] * k if fixed is None else fixed
         for i in force['zero_at']: fixed[i] = str(rng.choice(ZERO_TAGS))
+        if all(f is not None for f in fixed):          # never everything fixed: free a non-zero one
+            cand = [i for i in range(k) if i not in force['zero_at']]
+            fixed[cand[0]] = None
     elif fixed is not None and rng.random() < 0.3:
         fixed[int(rng.choice([i for i, f in enumerate(fixed) if f is not None]))] = str(rng.choice(ZERO_TAGS))
     free = [i for i in range(k) if fixed is None or fixed[i] is None]
     pts = 3 if len(free) >= 3 else int(rng.integers(3, 7))
     grid = [[round(true[i] - abs(true[i]) * 0.5 - 0.1, 4), round(true[i] + abs(true[i]) * 0.5 + 0.1, 4), pts] for i in free]
-    return dict(case='optim', wrapper='optimize_grid', toy=toy, p0=None, lower=None, upper=None, fixed=fixed, grid=grid,
+    spec = dict(case='optim', wrapper='optimize_grid', toy=toy, p0=None, lower=None, upper=None, fixed=fixed, grid=grid,
                 multinom=bool(rng.random() < 0.6), full_output=bool(force.get('full_output', rng.random() < 0.6)), ll_scale=1, maxiter=None)
+    spec['pts'] = gen_pts_seq(rng, 1)[0]
+    spec.update(gen_extras(rng))
+    return spec
 
 # =============================================================================================== direct K / L3: projections
 def case_project(chk, ctx, spec):
@@ -753,20 +884,45 @@ def gen_project(rng):
 # =============================================================================================== direct K / L3: _object_func
 def case_objfunc(chk, ctx, spec):
     dadi = ctx['dadi']; driver = ctx['driver']; I = dadi.Inference
-    pb = Problem(dadi, spec['toy'])
     params, lower, upper, scale, multinom = spec['params'], spec['lower'], spec['upper'], spec['ll_scale'], spec['multinom']
     fixed = fx_num(spec['fixed'])
-    try:
-        with np.errstate(all='ignore'):
-            if spec.get('log'):
-                v = I._object_func_log(np.log(np.array(params)), pb.data, pb.model_func, None, lower_bound=lower, upper_bound=upper, multinom=multinom,
-                                       fixed_params=fx_real(spec['fixed']), ll_scale=scale)
-            else:
-                v = I._object_func(np.array(params, dtype=float), pb.data, pb.model_func, None, lower_bound=lower, upper_bound=upper, multinom=multinom,
-                                   fixed_params=fx_real(spec['fixed']), ll_scale=scale)
-        impl = ('ok', float(v), [c.tolist() for c in pb.calls])
-    except Exception as e:
-        impl = ('exc', type(e).__name__, [c.tolist() for c in pb.calls])
+    pts_seq = spec.get('pts_seq') or [None]
+    kwargs_obj = None if spec.get('func_kwargs') is None else dict(spec['func_kwargs'])     # ONE caller-owned dict for all calls of the sequence
+    args_obj = None if spec.get('func_args') is None else list(spec['func_args'])
+    watched_functions(dadi, 'optimize')
+    extra = {}
+    if kwargs_obj is not None: extra['func_kwargs'] = kwargs_obj
+    if args_obj is not None: extra['func_args'] = args_obj
+    before = (frozen(kwargs_obj), frozen(args_obj))
+    impl = None
+    for pts in pts_seq:       # consecutive calls in one process with different grids: each must see its own pts, nothing may be remembered
+        pb = Problem(dadi, spec['toy'], pts, spec.get('func_args'), spec.get('func_kwargs'))
+        try:
+            with np.errstate(all='ignore'):
+                if spec.get('log'):
+                    v = I._object_func_log(np.log(np.array(params)), pb.data, pb.model_func, pts, lower_bound=lower, upper_bound=upper, multinom=multinom,
+                                           fixed_params=fx_real(spec['fixed']), ll_scale=scale, **extra)
+                else:
+                    v = I._object_func(np.array(params, dtype=float), pb.data, pb.model_func, pts, lower_bound=lower, upper_bound=upper, multinom=multinom,
+                                       fixed_params=fx_real(spec['fixed']), ll_scale=scale, **extra)
+            impl = ('ok', float(v), [c.tolist() for c in pb.calls])
+        except Exception as e:
+            impl = ('exc', type(e).__name__, [c.tolist() for c in pb.calls])
+        want_in = (pts, list(spec.get('func_args') or []), dict(spec.get('func_kwargs') or {}))
+        wrong = [i for i in pb.inputs if not (same_pts(i[0], want_in[0]) and i[1] == want_in[1] and i[2] == want_in[2])]
+        if wrong:
+            chk.fail('_object_func:model_inputs', '_object_func(..., pts=%r, func_args=%r, func_kwargs=%r) in the call sequence pts=%r: the model function got %r'
+                     % (pts, spec.get('func_args'), spec.get('func_kwargs'), pts_seq, wrong[0]), spec)
+        if (frozen(kwargs_obj), frozen(args_obj)) != before:
+            chk.fail('_object_func:mutates_argument:func_kwargs', '_object_func changed the caller\'s func_kwargs/func_args: %r / %r' % (kwargs_obj, args_obj), spec)
+            kwargs_obj.clear() if kwargs_obj is not None else None
+            if kwargs_obj is not None: kwargs_obj.update(spec['func_kwargs'])
+        for n, o in default_objects(I._object_func).items():
+            if len(o):
+                chk.fail('_object_func:default_argument_mutated:Inference._object_func.%s' % n, 'after the call the default `%s` of _object_func is %r' % (n, o), spec)
+                restore_default(o, None)
+        if impl[0] == 'ok' and len(pts_seq) > 1 and pts is not pts_seq[-1]:
+            continue
     pu = py_up(np.exp(np.log(np.array(params))) if spec.get('log') else params, fixed) if (fixed is None or sum(f is None for f in fixed) <= len(params)) else None
     chk.l3(('objfunc', lower is None, upper is None, fixed is None, multinom, scale != 1, bool(spec.get('log')), has_zero_fixed(spec['fixed'])))
     if has_zero_fixed(spec['fixed']): chk.stat('objfunc_cases_with_a_zero_fixed_value')
@@ -841,8 +997,11 @@ def gen_objfunc(rng):
         elif r < 0.9: params.append(round(lo[i] - float(rng.uniform(0.001, 1)), 3))
         else: params.append(round(hi[i] + float(rng.uniform(0.001, 1)), 3))
     log = bool(toy['kind'] == 'bump' and all(p > 0 for p in params) and rng.random() < 0.3)
-    return dict(case='objfunc', toy=toy, params=params, lower=lower, upper=upper, fixed=fixed, ll_scale=float(rng.choice([1, 1, 10, 0.25])),
+    spec = dict(case='objfunc', toy=toy, params=params, lower=lower, upper=upper, fixed=fixed, ll_scale=float(rng.choice([1, 1, 10, 0.25])),
                 multinom=multinom, log=log)
+    spec['pts_seq'] = gen_pts_seq(rng, int(rng.integers(1, 4)))
+    spec.update(gen_extras(rng))
+    return spec
 
 # =============================================================================================== perturb_params
 def case_perturb(chk, ctx, spec):
@@ -939,6 +1098,14 @@ def run_case(chk, ctx, spec):
     if c == 'optim':
         r = run_optim(chk, ctx, spec)
         follow_up(chk, ctx, spec, r)
+    elif c == 'seq':
+        fits = spec['fits']
+        chk.stat('fit_sequences'); chk.stat('fit_sequences:' + spec.get('wrapper', '?'))
+        for i, fit in enumerate(fits):
+            # the defaults are NOT cleaned between the fits of a sequence: what one fit leaves behind reaches the next one
+            r = run_optim(chk, ctx, fit, sample=False, report=spec, keep_defaults=(i < len(fits) - 1))
+            if r.get('raised') is not None and not isinstance(r['raised'], EvalBudget):
+                follow_up(chk, ctx, fit, r)
     elif c == 'project': case_project(chk, ctx, spec)
     elif c == 'objfunc': case_objfunc(chk, ctx, spec)
     elif c == 'perturb': case_perturb(chk, ctx, spec)
@@ -975,7 +1142,12 @@ def run(chk, ctx):
                 'grid search: 1-3 free parameters, fixed subsets, full_output on/off. projections: random fixed patterns incl. None, wrong lengths. '
                 '_object_func: points inside / on / outside the bounds, None entries, NaN-producing model, ll_scale, fixed. perturb_params: positive, zero, '
                 'negative, None-entry, absent bounds and boxes narrower than the 1% margins, several random draws each. '
-                'distinct = distinct (wrapper, #params, fixed?, bound kinds, multinom, toy kind, ll_scale, algorithm, full_output, default maxiter) etc.')
+                'every call gets its own pts (int / list / None) and optionally func_args / func_kwargs (absent = the wrapper\'s shared default object); the toy spectrum '
+                'depends on all three and the model function records what it receives; after EVERY call: caller-owned p0 / bound lists / fixed_params / func_args / '
+                'func_kwargs unchanged, mutable default arguments of the wrapper, of opt and of _object_func still at their initial value (then restored, so that each '
+                'case is replayable alone). sequences: for every wrapper two (some: three) consecutive fits in one process with every input different (pts, toy/data, '
+                'p0, bounds, fixed, multinom, extras), defaults NOT restored in between. parameters fixed at exactly zero in seven spellings. '
+                'distinct = distinct (wrapper, #params, fixed?, bound kinds, multinom, toy kind, ll_scale, algorithm, full_output, default maxiter, zero-fixed) etc.')
     chk.unproved = ['convergence / optimality of scipy and NLopt: not claimed; the optimiser is an arbitrary strategy in the theorems',
                     'that scipy / NLopt query only inside the bounds they are given (L-BFGS-B, SLSQP, nlopt): an assumption of C12_optimizer_box, validated on every recorded trace',
                     'that a local optimiser queries its start first and returns a point it evaluated together with its value: assumptions of C12_first_eval / '
@@ -990,7 +1162,22 @@ def run(chk, ctx):
         read_table(chk, ctx)
     names = exposed(dadi)
     chk.notes.append('exposed optimisers: ' + ', '.join(names))
-    # ---- structured sweep: every wrapper in its plainest documented form first
+    # ---- sequences of fits in one process FIRST (state leaking from one call into the next: mutable default arguments, caller-owned
+    #      dicts/lists): every wrapper, two fits with every input different, then a few three-fit sequences
+    specs = []
+    for w in names:
+        if w.endswith('_resid'): continue
+        if w == 'opt':
+            for lo in (False, True):
+                specs.append(gen_seq(rng, w, tier, 2, log_opt=lo, algorithm='LN_BOBYQA'))
+        else:
+            specs.append(gen_seq(rng, w, tier, 2))
+    for _ in range(3 if quick else 40):
+        w = [n for n in names if not n.endswith('_resid')][int(rng.integers(len([n for n in names if not n.endswith('_resid')])))]
+        specs.append(gen_seq(rng, w, tier, int(rng.integers(2, 4))))
+    for s_ in specs:
+        run_case(chk, ctx, s_)
+    # ---- structured sweep: every wrapper in its plainest documented form
     specs = []
     for w in names:
         if w == 'optimize_grid' or w.endswith('_resid'): continue
